@@ -105,8 +105,8 @@ Proof.
   { induction ids0 as [|id ids0 IH]; intros acc A; cbn [fold_left]; [exact A|].
     apply IH. destruct acc as [[b1 pg1] o1]. cbn [snd] in *. unfold remove_session_sub.
     destruct (nget (b_subs b1) id) as [s|]; [|exact A].
-    match goal with |- context [if ?c then _ else _] => destruct c end; cbn [snd]; [|exact A].
-    apply allb_app; [exact A|apply sub_meta_event_allb]. }
+    match goal with |- context [if ?c then _ else _] => destruct c end; cbn [snd];
+      repeat (apply allb_app); try exact A; apply sub_meta_event_allb. }
   apply G. apply allb_nil.
 Qed.
 
